@@ -27,8 +27,13 @@
 (*                                cached = Peek of every facade at that moment *)
 (*   sce {id, k, fn, d, pre, inj, r}   ... applied to the store, result r    *)
 (*   cset {k, v} / cdel {k}       facade Set / Delete (worker goroutine)     *)
-(*   ret {id, r}                  DoXxx returned                             *)
-(*   step {cache, store}          global quiescence: Peek of every facade    *)
+(*   ret {id, r}                  DoXxx returned; r.e = "canceled": the      *)
+(*                                caller's context ended, the operation is   *)
+(*                                ABANDONED: accepted, still to be applied   *)
+(*                                once, in order, by the owning worker       *)
+(*   step {cache, store, gated}   global quiescence: Peek of every facade,   *)
+(*                                ids waiting at a gate (none: every worker  *)
+(*                                is idle, every abandoned operation done)   *)
 (*   end {}                       everything released and settled            *)
 EXTENDS Integers, Sequences, FiniteSets, TLC, Json, IOUtils, MuxStore
 
@@ -41,15 +46,18 @@ VARIABLES
   base,    \* key -> store value when the operation now calling the store began
   tops,    \* id -> [op, k, d, n, solo, lr, cached, rej]
   pend,    \* ids submitted and not returned
+  aband,   \* ids whose caller gave up (context ended) and that may still be queued / running
   open,    \* key -> id inside a store callback (0 = none)
   cursor,  \* key -> latest id that called the store
   seen     \* last quiescent cache observation, valid for the next line only (else <<>>)
-tvars == <<l, serial, store, base, tops, pend, open, cursor, seen>>
+tvars == <<l, serial, store, base, tops, pend, aband, open, cursor, seen>>
 
 NK == Len(store)
-PendK(k) == {i \in pend : tops[i].k = k}
+Live == pend \cup aband
+PendK(k) == {i \in Live : tops[i].k = k}
 OpNames == {"get", "add", "upd", "del", "uoa", "utl", "utr"}
-Errs == {"inj", "nf", "sdup", "dup", "qfull", "closed"}
+Errs == {"inj", "nf", "sdup", "dup", "qfull", "closed", "canceled"}
+Mutators == {"add", "upd", "ups", "del"}
 
 (* a cached value v of key k is acceptable *)
 CacheOK(k, v, st, bs, pd) ==
@@ -57,33 +65,33 @@ CacheOK(k, v, st, bs, pd) ==
   /\ IF \E i \in pd : tops[i].k = k THEN v \in {st[k], bs[k]} ELSE v = st[k]
 
 TraceInit ==
-  /\ l = 1 /\ serial = TRUE /\ store = <<>> /\ base = <<>> /\ tops = <<>> /\ pend = {}
+  /\ l = 1 /\ serial = TRUE /\ store = <<>> /\ base = <<>> /\ tops = <<>> /\ pend = {} /\ aband = {}
   /\ open = <<>> /\ cursor = <<>> /\ seen = <<>>
 
 TReset(e) ==
   /\ serial' = e.serial
   /\ store' = [k \in 1..e.nk |-> 0] /\ base' = [k \in 1..e.nk |-> 0]
   /\ open' = [k \in 1..e.nk |-> 0] /\ cursor' = [k \in 1..e.nk |-> 0]
-  /\ tops' = <<>> /\ pend' = {} /\ seen' = <<>>
+  /\ tops' = <<>> /\ pend' = {} /\ aband' = {} /\ seen' = <<>>
 
 TSub(e) ==
   /\ e.id = Len(tops) + 1 /\ e.op \in OpNames /\ e.k \in 1..NK
   /\ LET quiet == PendK(e.k) = {} IN
        /\ tops' = Append([i \in 1..Len(tops) |->
                             IF i \in PendK(e.k) THEN [tops[i] EXCEPT !.solo = FALSE] ELSE tops[i]],
-                         [op |-> e.op, k |-> e.k, d |-> e.d, n |-> 0, solo |-> quiet, lr |-> 0,
-                          cached |-> (pend = {} /\ seen # <<>> /\ seen[e.k] # <<>>), rej |-> FALSE])
+                         [op |-> e.op, k |-> e.k, d |-> e.d, n |-> 0, m |-> 0, solo |-> quiet, lr |-> 0,
+                          cached |-> (Live = {} /\ seen # <<>> /\ seen[e.k] # <<>>), rej |-> FALSE])
        /\ base' = IF quiet THEN [base EXCEPT ![e.k] = store[e.k]] ELSE base
   /\ pend' = pend \cup {e.id}
   /\ seen' = <<>>
-  /\ UNCHANGED <<serial, store, open, cursor>>
+  /\ UNCHANGED <<serial, store, open, cursor, aband>>
 
 TScb(e) ==
-  /\ e.id \in pend /\ tops[e.id].k = e.k                  \* only for an accepted, unreturned operation
+  /\ e.id \in Live /\ tops[e.id].k = e.k                  \* only for an accepted, unfinished operation
   /\ open[e.k] = 0                                        \* one at a time per key
   /\ serial => e.id >= cursor[e.k]                        \* in the order of acceptance
   /\ serial => \A i \in (e.id + 1)..Len(tops) :          \* nobody accepted later was answered first
-                 (tops[i].k = e.k /\ i \notin pend /\ tops[i].op # "get") => tops[i].rej
+                 (tops[i].k = e.k /\ i \notin Live /\ tops[i].op # "get") => tops[i].rej
   /\ (e.fn = "add" /\ tops[e.id].op = "add") => e.cached = <<>>   \* add on a cached key never reaches the store
   /\ \A j \in 1..Len(e.cached) :                          \* what is cached when the store is consulted
         /\ e.cached[j] # 0
@@ -92,29 +100,31 @@ TScb(e) ==
   /\ cursor' = [cursor EXCEPT ![e.k] = e.id]
   /\ base' = IF cursor[e.k] # e.id THEN [base EXCEPT ![e.k] = store[e.k]] ELSE base
   /\ seen' = <<>>
-  /\ UNCHANGED <<serial, store, tops, pend>>
+  /\ UNCHANGED <<serial, store, tops, pend, aband>>
 
 TSce(e) ==
-  /\ e.id \in pend /\ tops[e.id].k = e.k /\ open[e.k] = e.id
+  /\ e.id \in Live /\ tops[e.id].k = e.k /\ open[e.k] = e.id
   /\ e.fn \in {"add", "upd", "ups"} => e.d = tops[e.id].d
   /\ e.fn = "upd" => e.pre = store[e.k]                   \* the existing item is the stored one
   /\ e.fn = "ups" => e.pre \in {0, store[e.k]}
   /\ LET res == StoreF(store[e.k], e.fn, tops[e.id].d, e.pre, e.inj) IN
        /\ e.r = res.r
        /\ store' = [store EXCEPT ![e.k] = res.st]
-       /\ tops' = [tops EXCEPT ![e.id].n = @ + 1, ![e.id].lr = res.r.v]
+       /\ (e.fn \in Mutators /\ res.r.ok) => tops[e.id].m = 0        \* an operation is applied at most once
+       /\ tops' = [tops EXCEPT ![e.id].n = @ + 1, ![e.id].lr = res.r.v,
+                                ![e.id].m = IF e.fn \in Mutators /\ res.r.ok THEN 1 ELSE @]
   /\ open' = [open EXCEPT ![e.k] = 0]
   /\ seen' = <<>>
-  /\ UNCHANGED <<serial, base, pend, cursor>>
+  /\ UNCHANGED <<serial, base, pend, aband, cursor>>
 
 TCset(e) ==
-  /\ e.k \in 1..NK /\ CacheOK(e.k, e.v, store, base, pend)
+  /\ e.k \in 1..NK /\ CacheOK(e.k, e.v, store, base, Live)
   /\ seen' = <<>>
-  /\ UNCHANGED <<serial, store, base, tops, pend, open, cursor>>
+  /\ UNCHANGED <<serial, store, base, tops, pend, aband, open, cursor>>
 
 TCdel(e) ==
   /\ seen' = <<>>
-  /\ UNCHANGED <<serial, store, base, tops, pend, open, cursor>>
+  /\ UNCHANGED <<serial, store, base, tops, pend, aband, open, cursor>>
 
 TRet(e) ==
   /\ e.id \in pend
@@ -122,28 +132,32 @@ TRet(e) ==
          r == e.r
      IN /\ IF r.ok THEN r.e = "" ELSE (r.e \in Errs /\ r.v = 0)
         /\ r.e \in {"qfull", "closed", "dup"} => o.n = 0               \* rejected: store untouched
-        /\ (o.op = "add" /\ o.cached) => r.e = "dup"                   \* add on a cached key
+        /\ (o.op = "add" /\ o.cached /\ r.e # "canceled") => r.e = "dup"                   \* add on a cached key
         /\ (o.solo /\ r.e = "dup") => store[o.k] # 0                    \* duplicate: cached, hence stored
         /\ (o.solo /\ r.ok /\ o.op \in {"add", "upd", "uoa", "utl", "utr"}) => store[o.k] = o.d   \* applied
         /\ (o.solo /\ r.ok /\ o.op # "del") =>
               (r.v # 0 /\ (r.v = store[o.k] \/ (o.n > 0 /\ r.v = o.lr)))
         /\ (o.solo /\ r.ok /\ o.op = "del") => (r.v = 0 /\ store[o.k] = 0 /\ o.n > 0)
-        /\ open[o.k] # e.id
+        /\ r.e # "canceled" => open[o.k] # e.id
   /\ pend' = pend \ {e.id}
-  /\ tops' = [tops EXCEPT ![e.id].rej = e.r.e \in {"qfull", "closed"}]
+  /\ aband' = IF e.r.e = "canceled" THEN aband \cup {e.id} ELSE aband
+  /\ tops' = [tops EXCEPT ![e.id].rej = e.r.e \in {"qfull", "closed", "canceled"}]
   /\ seen' = <<>>
   /\ UNCHANGED <<serial, store, base, open, cursor>>
 
 TStep(e) ==
   /\ e.store = store
-  /\ \A k \in 1..NK : \A i \in 1..Len(e.cache[k]) : CacheOK(k, e.cache[k][i], store, base, pend)
-  /\ seen' = IF pend = {} THEN e.cache ELSE <<>>
+  /\ \A k \in 1..NK : \A i \in 1..Len(e.cache[k]) : CacheOK(k, e.cache[k][i], store, base, Live)
+  /\ e.gated = <<>> =>                 \* every worker idle: an abandoned operation was applied, not dropped
+        \A i \in aband : tops[i].op \notin {"add", "get"} => tops[i].n > 0
+  /\ aband' = IF e.gated = <<>> THEN {} ELSE aband
+  /\ seen' = IF Live = {} THEN e.cache ELSE <<>>
   /\ UNCHANGED <<serial, store, base, tops, pend, open, cursor>>
 
 TEnd(e) ==
-  /\ pend = {} /\ \A k \in 1..NK : open[k] = 0
+  /\ pend = {} /\ aband = {} /\ \A k \in 1..NK : open[k] = 0
   /\ seen' = <<>>
-  /\ UNCHANGED <<serial, store, base, tops, pend, open, cursor>>
+  /\ UNCHANGED <<serial, store, base, tops, pend, aband, open, cursor>>
 
 TraceNext ==
   /\ l <= Len(TraceLog) /\ l' = l + 1
